@@ -41,7 +41,9 @@ class NameMap:
         E = _impl["Element"]
         nm = self.names[x]
         out = [E(str(nm))]
-        if str(nm).isdigit():
+        if isinstance(nm, int):
+            out.append(E(nm))
+        elif str(nm).isdigit():
             out.append(E(int(nm)))
         return out
 
@@ -287,11 +289,11 @@ def run_file(case):
     rec = dict(case)
     rec.update(kind="file", out="", read=[], typesok=0)
     d = core.workdir("files")
-    path = os.path.join(d, f"ds_{os.getpid()}_{case['id']}.txt")
+    path = os.path.join(d, f"ds_{os.getpid()}.txt")          # the SAME path for every case of this worker process
     cwd = os.getcwd()
     if case.get("relative"):
         os.chdir(d)                                   # a bare file name, relative to the current directory
-        path = f"rel_{os.getpid()}_{case['id']}.txt"
+        path = f"rel_{os.getpid()}.txt"
     try:
         if os.path.exists(path):
             os.unlink(path)
